@@ -69,7 +69,7 @@ NAME_SPECS = {
         r is Err ==> mixed_case_octets@.len() > 63, // [C16:label_reject_only_long]"""},
     "DomainName::root_domain": {"props": ["C16"], "contract": "    ensures r.wf(), r.labels@.len() == 1,"},
     "DomainName::is_root": {"props": ["C16"], "contract": "    requires self.wf(),\n    ensures r == (self.labels@.len() == 1),"},
-    "DomainName::from_labels": {"props": ["C16"], "contract": """    requires all_labels_wf(labels@), labels@.len() <= 0x1_0000_0000,
+    "DomainName::from_labels": {"props": ["C16"], "contract": """    requires all_labels_wf(labels@), labels@.len() <= 0x03ff_ffff_ffff_ffff,
     ensures
         r is Some ==> r->Some_0.wf(), // [C16:from_labels_wf]
         r is Some ==> r->Some_0.labels@ == labels@, // [C16:from_labels_same_labels]
